@@ -324,6 +324,41 @@ def run(ctx: lib.Ctx) -> None:
                         if heavy and what in ('relabelled', 'foreign-prefix'):
                             continue
                         impl_verify(cs, pub, None, curve, s2, m, 'malformed-' + what)
+            # rare shapes: a signature whose r or s has a leading zero byte (fixed-width serialisation), found by grinding messages;
+            # for P-256 also encodings fastecdsa refuses with its own exception classes (r, s outside [1, n-1]; bad SEC1 prefix byte)
+            if curve in (b'sp', b'p2') and ki < ctx.n(1, 6):
+                for _ in range(3000):
+                    m = rng.randbytes(6)
+                    raw = base58_decode(k.sign(m).encode())
+                    if raw[0] == 0 or raw[32] == 0:
+                        break
+                ctx.dist[f'leading-zero-signature:{curve.decode()}:{raw[0] == 0 or raw[32] == 0}'] += 1
+                for generic in (False, True):
+                    ok, s = impl_sign(cs, pub, sec, curve, m, generic, 'leading-zero')
+                    oracle_sign_verify(ctx, rng, curve, secret, m, m, generic, n_alter=1, report=report)
+                    if ok:
+                        impl_verify(cs, pub, None, curve, s, m, 'leading-zero')
+                        impl_checksig(cs, pk_txt, s, m, 'leading-zero')
+            if curve in (b'sp', b'p2') and ki < ctx.n(1, 4):
+                m = rng.randbytes(4)
+                raw = base58_decode(k.sign(m).encode())
+                order = ck.P256_N if curve == b'p2' else ck.SECP_N
+                specials = [bytes(32) + raw[32:], raw[:32] + bytes(32), order.to_bytes(32, 'big') + raw[32:], raw[:32] + order.to_bytes(32, 'big'),
+                            b'\xff' * 32 + raw[32:], (int.from_bytes(raw[:32], 'big') + order).to_bytes(33, 'big')[-32:] + raw[32:]]
+                for rs in specials:
+                    s2 = base58_encode(rs, curve + b'sig').decode()
+                    v = impl_verify(cs, pub, None, curve, s2, m, 'out-of-range-rs')
+                    r2 = impl_checksig(cs, pk_txt, s2, m, 'out-of-range-rs')
+                    if v == 'Valid' or r2 is True:
+                        report('a signature with r or s outside [1, n-1] is accepted', {'curve': curve.decode(), 'public_point': pub.hex(), 'signature': s2, 'message': m.hex()})
+                s_ok = k.sign(m)
+                for b0 in (pub[0] ^ 0x80, 0x04, 0x00, pub[0] ^ 1):
+                    p2 = bytes([b0]) + pub[1:]
+                    v = impl_verify(cs, p2, None, curve, s_ok, m, 'key-prefix-byte')
+                    ok2, pk2 = lib.call(lambda: Key.from_public_point(p2, curve).public_key())
+                    r2 = impl_checksig(cs, pk2, s_ok, m, 'key-prefix-byte') if ok2 else None
+                    if v == 'Valid' or r2 is True:
+                        report('a signature is accepted under a key with an altered first byte', {'curve': curve.decode(), 'public_point': p2.hex(), 'signature': s_ok, 'message': m.hex()})
             # malformed keys
             m = rng.randbytes(5)
             impl_sign(cs, pub, None, curve, m, False, 'no-secret')
